@@ -19,6 +19,7 @@
 #include <kernel/space/lagrange2/element.hpp>
 #include <kernel/analytic/common.hpp>
 #include <kernel/analytic/wrappers.hpp>
+#include <thread>
 #include <kernel/assembly/domain_assembler.hpp>
 #include <kernel/assembly/domain_assembler_helpers.hpp>
 #include <kernel/assembly/burgers_assembly_job.hpp>
@@ -69,6 +70,29 @@ static void put_vecb(Out& o, const VecB& v) { const double* p = v.template eleme
 static void put_mat(Out& o, const Mat& m) { const double* p = m.val(); for(Index i(0); i < m.used_elements(); ++i) o.push_back(p[i]); }
 static void put_matb(Out& o, const MatB& m) { const double* p = m.template val<LAFEM::Perspective::pod>(); for(Index i(0); i < m.template used_elements<LAFEM::Perspective::pod>(); ++i) o.push_back(p[i]); }
 
+// an analytic function whose EVALUATOR keeps scratch state between writing and reading it (as parsed / interpolated functions
+// do): evaluators are per-task objects by design, so every worker thread must own its evaluator
+class StatefulFunction : public Analytic::Function
+{
+public:
+  static constexpr int domain_dim = 2;
+  typedef Analytic::Image::Scalar ImageType;
+  static constexpr bool can_value = true, can_grad = false, can_hess = false;
+  template<typename Traits_> class Evaluator : public Analytic::Function::Evaluator<Traits_>
+  {
+  public:
+    typedef typename Traits_::PointType PointType; typedef typename Traits_::ValueType ValueType;
+    double scratch[2];
+    explicit Evaluator(const StatefulFunction&) { scratch[0] = scratch[1] = 0.0; }
+    ValueType value(const PointType& p)
+    {
+      scratch[0] = double(p[0]); scratch[1] = double(p[1]);
+      std::this_thread::yield();
+      return ValueType(1.0 + scratch[0] * (2.0 - scratch[1]) + 3.0 * scratch[1] * scratch[1]);
+    }
+  };
+};
+
 struct World
 {
   MeshType mesh; TrafoType trafo; SpaceQ1 q1; SpaceQ2 q2;
@@ -90,7 +114,7 @@ struct World
 };
 
 static const char* all_jobs[] = { "matrix1", "matrix2", "linfunc", "force", "analytic", "discrete", "error", "error2", "cellerror",
-                                  "vanalytic", "vdiscrete", "verror",
+                                  "vanalytic", "vdiscrete", "verror", "force_stateful", "analytic_stateful",
                                   "burgers_smat", "burgers_svec", "burgers_bmat", "burgers_bvec" };
 
 static Out run_job(const std::string& name, World& w, Assembly::DomainAssembler<TrafoType>& da)
@@ -122,6 +146,18 @@ static Out run_job(const std::string& name, World& w, Assembly::DomainAssembler<
     Vec v(w.q2.get_num_dofs()); v.format();
     Assembly::assemble_force_function_vector(da, v, w.expb, w.q2, cub);
     put_vec(o, v);
+  }
+  else if(name == "force_stateful")
+  {
+    Vec v(w.q2.get_num_dofs()); v.format();
+    StatefulFunction sf;
+    Assembly::assemble_force_function_vector(da, v, sf, w.q2, cub);
+    put_vec(o, v);
+  }
+  else if(name == "analytic_stateful")
+  {
+    StatefulFunction sf;
+    put_info(o, Assembly::integrate_analytic_function<0, double>(da, sf, cub));
   }
   else if(name == "analytic")
     put_info(o, Assembly::integrate_analytic_function<1, double>(da, w.expb, cub));
